@@ -107,6 +107,16 @@ type executor struct {
 //
 // 5. We can now construct the output data model of the workflow.
 func (e *executor) Prepare(workflow *Workflow, workflowContext map[string][]byte) (ExecutableWorkflow, error) {
+	// Preparation records DAG node IDs on the one-of and optional expressions in the step and output data, and the
+	// prepared workflow reads them when it runs. The workflow belongs to the caller, who may prepare it again, also
+	// while a workflow prepared from it is running, so this preparation works on its own copy of that data.
+	ownWorkflow := *workflow
+	ownWorkflow.Steps, _ = copyWorkflowData(workflow.Steps).(map[string]any)
+	ownWorkflow.Outputs, _ = copyWorkflowData(workflow.Outputs).(map[string]any)
+	//goland:noinspection GoDeprecation
+	ownWorkflow.Output = copyWorkflowData(workflow.Output)
+	workflow = &ownWorkflow
+
 	dag := dgraph.New[*DAGItem]()
 	if _, err := dag.AddNode(WorkflowInputKey, &DAGItem{
 		Kind: "input",
@@ -231,6 +241,48 @@ func (e *executor) Prepare(workflow *Workflow, workflowContext map[string][]byte
 		lifecycles:        stepLifecycles,
 		outputSchema:      outputsSchema,
 	}, nil
+}
+
+// copyWorkflowData returns a copy of the data of a step or an output in which every map, every list and every one-of
+// and optional expression is a new object. Scalars and plain expressions are never modified and remain shared.
+func copyWorkflowData(data any) any {
+	switch d := data.(type) {
+	case map[string]any:
+		if d == nil {
+			return d
+		}
+		result := make(map[string]any, len(d))
+		for key, value := range d {
+			result[key] = copyWorkflowData(value)
+		}
+		return result
+	case map[any]any:
+		if d == nil {
+			return d
+		}
+		result := make(map[any]any, len(d))
+		for key, value := range d {
+			result[key] = copyWorkflowData(value)
+		}
+		return result
+	case []any:
+		if d == nil {
+			return d
+		}
+		result := make([]any, len(d))
+		for i, value := range d {
+			result[i] = copyWorkflowData(value)
+		}
+		return result
+	case *infer.OneOfExpression:
+		options, _ := copyWorkflowData(d.Options).(map[string]any)
+		return &infer.OneOfExpression{Discriminator: d.Discriminator, Options: options, NodePath: d.NodePath}
+	case *infer.OptionalExpression:
+		result := *d
+		return &result
+	default:
+		return data
+	}
 }
 
 func (e *executor) processInput(workflow *Workflow) (schema.Scope, error) {
